@@ -9,7 +9,7 @@ from .. import ctx as C
 
 
 def newline_rule(lm) -> str:
-    c = [n for n, rm in lm.rules.items() if rm.newline and rm.texts is not None and '\n' in rm.texts]
+    c = [n for n, rm in lm.rules.items() if rm.newline and '\n' in (rm.texts if rm.texts is not None else (rm.samples or ()))]
     if len(c) != 1:
         raise AnalysisError('lexer: expected exactly one separator rule matching a bare line break, found %r' % c)
     return c[0]
